@@ -268,7 +268,11 @@ class Impl:
                 gc.collect()
                 return ["unit"]
             if k == "add":
-                st.add(o)
+                # every other add is a bulk insertion fed from a one-shot generator (AbstractObjectStore.update)
+                if (o.id_short or "v0")[-1] in "13579":
+                    st.update(x for x in [o])
+                else:
+                    st.add(o)
                 return ["unit"]
             if k == "commit":
                 # committing a contained element commits the document of the stored object it belongs to: every other
